@@ -399,6 +399,75 @@ def misc_bugclasses(prog, cfg_of_):
                         f"only (not {missing[:5]}...): two different {c.name} objects that agree on those - the same step "
                         f"name on two assets that are not bound (asset None) - compare equal, so `x not in list` "
                         f"de-duplication (entry points, reached steps) drops one of them"))
+    # SETDEFAULT: `d.setdefault(k, [v])` as a statement inside a loop - only the FIRST value of a key is kept, the
+    # later ones are thrown away (the get-or-create idiom needs `.setdefault(k, []).append(v)`)
+    for f in prog.all_funcs():
+        if f.module.generated:
+            continue
+        for lp in own_nodes(f.node):
+            if not isinstance(lp, (ast.For, ast.While)):
+                continue
+            for st in ast.walk(lp):
+                if isinstance(st, ast.Expr) and isinstance(st.value, ast.Call) and isinstance(st.value.func, ast.Attribute) \
+                        and st.value.func.attr == 'setdefault' and len(st.value.args) == 2 \
+                        and isinstance(st.value.args[1], (ast.List, ast.Set, ast.Tuple)) and st.value.args[1].elts:
+                    out.append((f, st.value, 'SETDEFAULT',
+                                f"'{stmt_text(st.value, 90)}' stores the one-element collection only when the key is new and "
+                                f"discards it otherwise: every further value of an existing key is lost (a step with "
+                                f"several same-named parents keeps the first one only)"))
+    # ARGSWAP: positional arguments whose names are the callee's parameter names - in exchanged positions.  Decided
+    # on the source as written (before helpers are un-extracted), by unique function name
+    defs = {}
+    for m in prog.handwritten_modules():
+        raw = ast.parse(m.source)
+        m._raw_tree = raw
+        for n in ast.walk(raw):
+            if isinstance(n, ast.FunctionDef):
+                ps = [a.arg for a in n.args.posonlyargs + n.args.args]
+                if ps and ps[0] in ('self', 'cls'):
+                    ps = ps[1:]
+                defs.setdefault(n.name, []).append(ps)
+    for m in prog.handwritten_modules():
+        raw = m._raw_tree
+        encl = {}
+        for fn in ast.walk(raw):
+            if isinstance(fn, ast.FunctionDef):
+                for x in ast.walk(fn):
+                    if isinstance(x, ast.Call):
+                        encl[id(x)] = fn.name
+        for n in ast.walk(raw):
+            if not isinstance(n, ast.Call):
+                continue
+            cname = n.func.id if isinstance(n.func, ast.Name) else (n.func.attr if isinstance(n.func, ast.Attribute) else None)
+            if cname not in defs or len(defs[cname]) != 1:
+                continue
+            ps = defs[cname][0]
+            args = n.args
+            for i in range(min(len(args), len(ps))):
+                for j in range(i + 1, min(len(args), len(ps))):
+                    if isinstance(args[i], ast.Name) and isinstance(args[j], ast.Name) and args[i].id != args[j].id \
+                            and args[i].id == ps[j] and args[j].id == ps[i]:
+                        host = None
+                        for g in prog.all_funcs():
+                            if g.module is m and g.name == encl.get(id(n)):
+                                host = g
+                        if host is None:
+                            continue
+                        # both orders tried on purpose (`f(a, b) or f(b, a)`): the straight call sits next to it
+                        straight = False
+                        for o in ast.walk(raw):
+                            if isinstance(o, ast.Call) and o is not n and encl.get(id(o)) == encl.get(id(n)):
+                                oc = o.func.id if isinstance(o.func, ast.Name) else (
+                                    o.func.attr if isinstance(o.func, ast.Attribute) else None)
+                                if oc == cname and len(o.args) > j and isinstance(o.args[i], ast.Name) \
+                                        and isinstance(o.args[j], ast.Name) and o.args[i].id == ps[i] and o.args[j].id == ps[j]:
+                                    straight = True
+                        if straight:
+                            continue
+                        out.append((host, n, 'ARGSWAP',
+                                    f"'{stmt_text(n, 90)}' passes '{args[i].id}' as parameter '{ps[i]}' and "
+                                    f"'{args[j].id}' as parameter '{ps[j]}' of {cname}: the two arguments carry each other's "
+                                    f"parameter names - they are exchanged"))
     for f in prog.all_funcs():
         if f.module.generated:
             continue
